@@ -6,7 +6,9 @@ M-ACK: require-ack locks (C11). A small lock engine for the keys involved (serve
 `ProcessLeaderPushLock`, `ProcessLeaderPushUnLock`, `ProcessLeaderAofed`, `ProcessLeaderAcked`, `SwitchToFollower`, `FlushDB`),
 `ReplicationManager.PushLock`'s gate and `UpdateDBAckCount`. Written to mirror the code that exists — the tree with the repairs
 e4ad793 (re-entrant require-ack LOCK: UPDATED record journalled without the ack registration, `Rec.noAckFlag`), 804e6dc (unlock-first
-honours the pending test, `classifyUnlock`) and f622546 (`leaderPushLock` does not register a lock that is no longer held). Core Lean only.
+honours the pending test, `classifyUnlock`) and f622546 (`leaderPushLock` does not register a lock that is no longer held), and with
+the C04 repair (a wake pass after the TIMEOUT of a queued request, `DB.dropWaiter` + `wake` in `fireTimeout`, and after the reply of a
+re-entrant re-lock, `DB.relockHold` + `wake` in `applyLock`; its other two sites, cancel-wait and UPDATE, are outside the subset). Core Lean only.
 
 Granularity. One event = one complete call of a real entry point, executed to completion before the next one starts (in the server the
 journal delivery, the flush report and the follower answers run on other goroutines; each of them takes the ack-table mutex and then the
@@ -521,22 +523,27 @@ def DB.updateHold (db : DB) (hid : Nat) (c : Cmd) : DB :=
   let db1 := db.modR hid (Rec.updateF db.now c)
   if h.esched.long && expT != h.expT then db1.addExpried hid else db1
 
+/-- the re-entrant re-lock of hold `h` by command `c`, up to the reply -/
+def DB.relockHold (db : DB) (c : Cmd) (h : Nat) : DB :=
+  let db1 := (db.modR h (fun r => { r with depth := r.depth + 1 })).modKey c.key (fun k => { k with locked := k.locked + 1 })
+  -- the value operation runs with the NEW command on the old record, without undo record
+  let db2 := match frameOf c with
+    | some f => db1.modKey c.key (fun k => { k with cell := some (applyFrame k.cell f).1 })
+    | none => db1
+  let db3 := db2.updateHold h c
+  -- the hold is journalled already: its UPDATED record is pushed with the require-ack bit cleared (no lock pointer, no registration)
+  let db4 := if (db3.getR h).isAof then (db3.pushJ (db3.getR h).noAckFlag true).1 else db3
+  db4.ctrMod (fun x => { x with lockCount := x.lockCount + 1, lockedCount := x.lockedCount + 1 })
+
 def applyLock (db : DB) (c : Cmd) : LockBranch → DB × List Reply
   | .stateError => (db, [mkReply c R_STATE_ERROR (db.getKey c.key).locked 0 (db.curData c.key)])
   | .ackWaiting h => (db, [mkReply c R_ACK_WAITING (db.getKey c.key).locked (db.getR h).depth (db.curData c.key)])
   | .relockRefused h => (db, [mkReply c R_LOCKED_ERROR (db.getKey c.key).locked (db.getR h).depth (db.curData c.key)])
   | .relock h =>
     let v0 := db.curData c.key
-    let db1 := (db.modR h (fun r => { r with depth := r.depth + 1 })).modKey c.key (fun k => { k with locked := k.locked + 1 })
-    -- the value operation runs with the NEW command on the old record, without undo record
-    let db2 := match frameOf c with
-      | some f => db1.modKey c.key (fun k => { k with cell := some (applyFrame k.cell f).1 })
-      | none => db1
-    let db3 := db2.updateHold h c
-    -- the hold is journalled already: its UPDATED record is pushed with the require-ack bit cleared (no lock pointer, no registration)
-    let db4 := if (db3.getR h).isAof then (db3.pushJ (db3.getR h).noAckFlag true).1 else db3
-    let db5 := db4.ctrMod (fun x => { x with lockCount := x.lockCount + 1, lockedCount := x.lockedCount + 1 })
-    (db5, [mkReply c R_SUCCED (db5.getKey c.key).locked (db5.getR h).depth v0])
+    let d := db.relockHold c h
+    -- the re-lock can have changed what a queued request is admissible against: wake pass after the reply
+    d.wake c.key [mkReply c R_SUCCED (d.getKey c.key).locked (d.getR h).depth v0]
   | .grant =>
     let waited := (db.getKey c.key).waited
     let n := db.newRec c
@@ -600,6 +607,13 @@ def opUnlock (db : DB) (c : Cmd) : DB × List Reply := applyUnlock db c (classif
 
 /-! ### timer sweeps -/
 
+/-- the waiter branch of `doTimeOut`, up to the reply: the request leaves the queue -/
+def DB.dropWaiter (db : DB) (hid : Nat) : DB :=
+  let r := db.getR hid
+  let db1 := (db.modR hid (fun r => { r with timeouted := true })).modR hid (fun r => { r with queued := false })
+  let db2 := if (db1.waiters r.cmd.key).isEmpty then db1.modKey r.cmd.key (fun k => { k with waited := false }) else db1
+  db2.ctrMod (fun x => { x with waitCount := x.waitCount - 1, timeoutedCount := x.timeoutedCount + 1 })
+
 /-- `doTimeOut(lock)` for a record whose timeout entry is live -/
 def fireTimeout (db : DB) (hid : Nat) : DB × List Reply :=
   let r := db.getR hid
@@ -609,11 +623,10 @@ def fireTimeout (db : DB) (hid : Nat) : DB × List Reply :=
     let db1 := (db0.rollback hid).ctrMod (fun x => { x with timeoutedCount := x.timeoutedCount + 1 })
     db1.wake r.cmd.key [mkReply r.cmd R_TIMEOUT (db1.getKey r.cmd.key).locked 0 (db1.curData r.cmd.key)]
   else
-    -- a queued request (or a record that is no hold any more: same path in the code)
-    let db1 := db0.modR hid (fun r => { r with queued := false })
-    let db2 := if (db1.waiters r.cmd.key).isEmpty then db1.modKey r.cmd.key (fun k => { k with waited := false }) else db1
-    let db3 := db2.ctrMod (fun x => { x with waitCount := x.waitCount - 1, timeoutedCount := x.timeoutedCount + 1 })
-    (db3, [mkReply r.cmd R_TIMEOUT (db3.getKey r.cmd.key).locked 0 (db3.curData r.cmd.key)])
+    -- a queued request (or a record that is no hold any more: same path in the code); the request that left the queue may have been
+    -- the one the others were waiting behind: wake pass after the reply
+    let d := db.dropWaiter hid
+    d.wake r.cmd.key [mkReply r.cmd R_TIMEOUT (d.getKey r.cmd.key).locked 0 (d.curData r.cmd.key)]
 
 /-- `doExpried(lock)` -/
 def fireExpire (db : DB) (hid : Nat) : DB × List Reply :=
